@@ -307,6 +307,26 @@ class Lst:
         return "[%s]" % ", ".join(map(repr, self.items))
 
 
+class DictView(Lst):
+    """dict.keys() / values() / items(): a live view -- it shows the dictionary as it is when looked at."""
+
+    def __init__(self, dv, kind):
+        self.dv, self.kind = dv, kind
+
+    @property
+    def items(self):
+        d = self.dv.d
+        if self.kind == "keys":
+            return list(d.keys())
+        if self.kind == "values":
+            return list(d.values())
+        return [Tup([k, v]) for k, v in d.items()]
+
+    @items.setter
+    def items(self, value):
+        raise Undecided("assignment to a dictionary view")
+
+
 class DictVal:
     def __init__(self, d=None, ordered=False):
         self.d = dict(d or {})
@@ -1062,6 +1082,15 @@ class Interp:
             return item in container
         if isinstance(container, Str) or isinstance(item, Str):
             raise Undecided("substring test on a symbolic label")
+        if isinstance(container, ObjVal):
+            m = container.cls.lookup("__contains__")
+            if m is not None:
+                return self.truth(self.call_function(m, [container, item], {}))
+            m = container.cls.lookup("__iter__")
+            if m is not None:
+                return any(self.equal(x, item, node) for x in self.iterate(container))
+        if isinstance(container, IterVal):
+            return any(self.equal(x, item, node) for x in self._lazy(container))  # consumes the iterator up to the hit
         raise Undecided("'in' on %r" % (container,))
 
     def truth(self, v, node=None) -> bool:
@@ -1079,7 +1108,15 @@ class Interp:
             if v.kind == "var":
                 return True
             raise Undecided("truth value of a symbolic string")
-        if isinstance(v, (ObjVal, FuncVal, ClassVal, ModuleVal, Builtin, PyFunc, MockObj, IterVal)):
+        if isinstance(v, ObjVal):
+            m = v.cls.lookup("__bool__")
+            if m is not None:
+                return self.truth(self.call_function(m, [v], {}))
+            m = v.cls.lookup("__len__")
+            if m is not None:
+                return self.truth(self.call_function(m, [v], {}))  # an object with __len__ is false when empty
+            return True
+        if isinstance(v, (FuncVal, ClassVal, ModuleVal, Builtin, PyFunc, MockObj, IterVal)):
             return True
         raise Undecided("truth value of %r" % (v,))
 
@@ -2359,6 +2396,10 @@ class Interp:
                 return Str("num", (v,))  # repr/str of a float is a numeral denoting exactly that float (CPython guarantee)
             if v is None or isinstance(v, bool):
                 return str(v)
+            if isinstance(v, ObjVal):
+                m = (v.cls.lookup("__str__") if n == "str" else None) or v.cls.lookup("__repr__")
+                if m is not None:
+                    return self.call_function(m, [v], {})
             return v if isinstance(v, (str, Str)) else _StrOf(v)
         if n == "type":
             v = args[0]
@@ -3072,12 +3113,8 @@ class Interp:
         raise Undecided("list.%s" % m)
 
     def _dict_method(self, m, recv: DictVal, args, kwargs, node):
-        if m == "keys":
-            return Lst(list(recv.d.keys()))
-        if m == "values":
-            return Lst(list(recv.d.values()))
-        if m == "items":
-            return Lst([Tup([k, v]) for k, v in recv.d.items()])
+        if m in ("keys", "values", "items"):
+            return DictView(recv, m)
         if m == "get":
             try:
                 return recv.d[self.dict_key(recv, args[0])]
